@@ -1,6 +1,10 @@
 package main
 
-import "time"
+import (
+	"time"
+
+	rt "github.com/uber-go/tally/v4/verifrt"
+)
 
 func timeDur(n int64) time.Duration { return time.Duration(n) }
 
@@ -11,3 +15,5 @@ func sortStrings(s []string) {
 		}
 	}
 }
+
+func rtLiveLibraryThreads() []string { return rt.LiveLibraryThreads() }
